@@ -1,27 +1,32 @@
 """C11 -- data uploaded once is deduplicated by every later session"""
 import hashlib
 
-from . import ddgen, sessgen
+from . import ddgen, mgrgen, sessgen
 from .base import BaseProp
 
 
 class Prop(BaseProp):
     id = "C11"
-    groups = ["HashConsts", "ShardLayout", "ChunkConsts", "GearTable", "DedupFacts"]
+    groups = ["HashConsts", "ShardLayout", "ChunkConsts", "GearTable", "DedupFacts", "ShardFacts", "ManagerFacts"]
     prop_file = "Props/C11.v"
     trusted_base = [
         "real sessions (FileUploadSession, SingleFileCleaner, ShardFileManager, LocalClient, FileDownloader) are judged by an independent oracle in the harness "
         "(own xorb/shard readers, blake3/sha2 called directly); the Coq model covers FileDeduper, DataAggregator and the session's aggregation logic over an oracle data interface",
         "tokio scheduling of concurrently cleaned files: sampled (fp files), covered in the model by the oracle quantifier",
+        "Model/Manager.v is hand-written; tied to mdb_shard/src/shard_file_manager.rs by stream mgr (answer-by-answer) and by the ManagerFacts pins (exact bodies of chunk_hash_dedup_query and add_cas_block, statement order of register_shards, flush; fact index_counts_inserted_entries regenerated)",
+        "the manager model gives every flushed shard file a fresh identity (the real identity is the hash of its bytes, which include the creation time); registration order within one register_shards call (by mtime) is not modelled: scripts register one file per call",
     ]
     assumptions = [
         "configurations: HF_XET_TARGET_CHUNK_SIZE/MAX_XORB_BYTES/MAX_XORB_CHUNKS/NRANGES/INGESTION_BLOCK_SIZE scaled down through the code's own environment overrides (dev profile), one process per configuration",
         "the crate's debug-only shard self-check is switched off through the xet_verif hook (see DESIGN.md, observations)",
         "C11_known_file_stores_nothing / C11_reupload_after_session: AllowAll (fragmentation prevention refuses no answer, e.g. MIN_N_CHUNKS_PER_RANGE = 0); "
         "C11_refusal_stores_known_chunk_again shows the hypothesis is necessary (designed behaviour of DefragPrevention)",
+        "C11_added_chunk_found_across_flushes / C11_registered_chunk_found: counter below the cap at the end (b_total < cap), at most 65536 operations, chunk offset <= 65535 in its block, no two different chunk hashes of the collection share their first 64 bits (NoTruncClash), 32-byte hashes, added blocks with one xorb hash are equal",
         "C11_session_shard_covers_its_files: StoreOk (no two xorbs with one hash, no zero xorb hash, distinct 8-byte chunk-hash prefixes, non-empty chunks) and op_ok as for C01; first session on an empty store",
     ]
-    rule = ("stream sess (as C01): every xorb stored by a session must be recorded in its shards; re-uploads in later sessions must not transfer chunk bytes unless fragmentation prevention refused an answer; non-trivial = at least one non-empty file cleaned and a session finalized; distinct by sha256 of the case text")
+    rule = ("stream mgr: scripts against a real ShardFileManager (shard files registered one by one, some under keys, blocks added through the manager, explicit flushes and flushes by the size target, "
+            "cap on indexed chunks never reached / reached after a few shards / at once) compared answer by answer with the model (Model/Manager.v), every answer judged truthful and, below the cap, "
+            "every unambiguous chunk the manager was told about required to be found; stream sess (as C01): every xorb stored by a session must be recorded in its shards; re-uploads in later sessions must not transfer chunk bytes unless fragmentation prevention refused an answer; non-trivial = at least one non-empty file cleaned and a session finalized; distinct by sha256 of the case text")
     use_dd = False
 
     def streams(self, rng, tier):
@@ -71,9 +76,13 @@ class Prop(BaseProp):
         env = dict(skip)
         env.update({"HF_XET_TARGET_CHUNK_SIZE": "1024", "HF_XET_MAX_XORB_BYTES": "16384", "HF_XET_MDB_SHARD_MIN_TARGET_SIZE": "1024"})
         out.append({"name": "sess", "cases": cases, "env": env, "model": False, "timeout": 1200})
+        # the shard manager itself: scripts of register / add / flush / query against the model of its index
+        out += mgrgen.streams(rng, tier)
         return out
 
     def nontrivial(self, stream, case, io):
+        if stream == "mgr":
+            return mgrgen.nontrivial(case, io)
         if stream == "dd":
             return hashlib.sha256(case["text"].encode()).hexdigest() if case["text"].count(":") >= 5 else None
         if any(o.startswith("E") for o in io) and any(o.startswith("file ") and " size=0 " not in o for o in io):
@@ -81,6 +90,8 @@ class Prop(BaseProp):
         return None
 
     def count(self, counters, stream, case, io):
+        if stream == "mgr":
+            return mgrgen.count(counters, case, io)
         if stream == "dd":
             counters["dd_cases"] = counters.get("dd_cases", 0) + 1
             return
@@ -96,4 +107,4 @@ class Prop(BaseProp):
         counters["reupload_or_repeat_ops"] = counters.get("reupload_or_repeat_ops", 0) + case["text"].count(" fp ")
 
     def selfcheck(self, counters, tier):
-        return ["counter %s is zero" % k for k in ["sessions", "downloads", "files_with_dedup", "files_fully_deduplicated"] if counters.get(k, 0) == 0]
+        return ["counter %s is zero" % k for k in ["sessions", "downloads", "files_with_dedup", "files_fully_deduplicated"] + mgrgen.SELFCHECK if counters.get(k, 0) == 0]
